@@ -3,10 +3,12 @@ import Driver.AddrD
 import Driver.FramingD
 import Driver.BtcpD
 import Driver.UxD
+import Driver.AttrAccD
 
 def main (args : List String) : IO UInt32 := do
   match args with
   | ["attrmap"] => Driver.AttrMapD.main; return 0
+  | ["attracc"] => Driver.AttrAccD.main; return 0
   | ["ux"] => Driver.UxD.main; return 0
   | ["btcp"] => Driver.BtcpD.main; return 0
   | ["framing"] => Driver.FramingD.main; return 0
